@@ -26,6 +26,7 @@ inductive V where
   | lazySeq (xs : List V) (failAt : Nat)   -- an iterable that raises before yielding item `failAt`
   | pattern (r : Re)             -- a compiled regular expression
   | attrs (kvs : List (List Char × AttrVal))   -- an attribute dictionary element of a rule-based policy
+  | obj (fields : List (String × V))           -- an object seen through its attribute dictionary (a policy being built)
 
 instance : Inhabited V := ⟨.py .none⟩
 
@@ -46,6 +47,7 @@ def truth : V → Bool
   | .lazySeq _ _ => true
   | .pattern _ => true
   | .attrs kvs => !kvs.isEmpty
+  | .obj _ => true
 
 /-- the answer of `satisfied` as the checkers see it: its truthiness, or the exception -/
 def toR (m : M) : R := m.map truth
@@ -468,5 +470,40 @@ def appendM (a e : M) : M :=
 
 /-- the empty list literal as a value list (a list that will hold plain values) -/
 def cEmptyPyList : M := .ok (.py (.list []))
+
+/-! ### objects seen through their attribute dictionary (`Policy._calculate_type`) -/
+
+def objGet (name : String) : List (String × V) → Option V
+  | [] => Option.none
+  | (n, v) :: rest => if n = name then some v else objGet name rest
+
+def objSet (name : String) (v : V) : List (String × V) → List (String × V)
+  | [] => [(name, v)]
+  | (n, w) :: rest => if n = name then (n, v) :: rest else (n, w) :: objSet name v rest
+
+/-- `copy.copy(x)`: values are immutable here, the copy is the value -/
+def copyM (a : M) : M := a
+
+/-- `x.__dict__[name] = value`, as the new value of `x` -/
+def setDictItemM (a name v : M) : M :=
+  bindM a fun x => bindM name fun n => bindM v fun w => match x, n with
+    | .obj fs, .py (.str cs) => .ok (.obj (objSet (String.ofList cs) w fs))
+    | _, _ => raiseM
+
+/-- `getattr(obj, name, default)` on such an object -/
+def getattrObjM (a name dflt : M) : M :=
+  bindM a fun x => bindM name fun n => bindM dflt fun d => match x, n with
+    | .obj fs, .py (.str cs) => (match objGet (String.ofList cs) fs with | some v => .ok v | Option.none => .ok d)
+    | _, _ => getattrDynM (.ok x) (.ok n) (.ok d)
+
+/-- a list literal of string constants (a class attribute such as `_definition_fields`) -/
+def cStrList (xs : List String) : M := .ok (.seq (xs.map fun s => V.py (.str s.toList)))
+
+/-- the empty tuple literal `()` -/
+def cEmptyTuple : M := .ok (.seq [])
+
+/-- `isinstance(x, (dict, Rule))`: an attribute dictionary or a rule object -/
+def isRuleLikeM (a : M) : M :=
+  bindM a fun x => ofBool (match x with | .rule _ => true | .attrs _ => true | .py (.dict _) => true | _ => false)
 
 end Vakt.PyPrim
